@@ -10,7 +10,7 @@ sys.path.insert(0, os.path.dirname(os.path.abspath(__file__)))
 import vlib
 import tables_common as tc
 
-STRUCT = ("nodes", "pfx", "real", "virt", "vn")
+STRUCT = ("nodes", "pfx", "virt", "vn")
 
 def run(R):
     R.assumptions += tc.ASSUMPTIONS
@@ -52,13 +52,18 @@ def run(R):
     for it in tc.first_per_case(rep.anomaly)[:3]:
         ops = tc.case_ops(text, it["case"], max(it["op"], 1))
         R.oracle_failure("anomaly:" + " ".join(it["text"].split(" ")[3:8]), "implementation-side anomaly: " + it["text"][:300], dict(ops=ops, detail=it["text"][:1500]))
-    # model/implementation divergences without a spec failure
+    # model/implementation divergences without a spec failure.  Differences that are purely structural (node sets, side
+    # tables) do not touch C05's observables: they are the business of C08 (checks/C08_tables.py) and only noted here.
     if not rep.oracle:
-        for it in tc.first_per_case(rep.diverge)[:3]:
+        obs = [d for d in rep.diverge if d["kind"] not in STRUCT]
+        for it in tc.first_per_case(obs)[:3]:
             ops = tc.case_ops(text, it["case"], it["op"])
             ops = tc.shrink(R, exe, h, "fib", ops, lambda r, k=it["kind"], lb=it["label"]: any(x["kind"] == k and x["label"] == lb for x in r.diverge), budget=40)
-            R.divergence("model of the %s differs from the implementation on %s (%s)" % ("name tree" if it["label"] == "T" else "hash table", it["kind"],
-                         "white-box structure" if it["kind"] in STRUCT else "observable"), dict(ops=ops, detail=it["text"][:1500]))
+            R.divergence("model of the %s differs from the implementation on %s" % ("name tree" if it["label"] == "T" else "hash table", it["kind"]),
+                         dict(ops=ops, detail=it["text"][:1500]))
+        struct = [d for d in rep.diverge if d["kind"] in STRUCT]
+        if struct:
+            R.notes.append("white-box structure differs from the model in %d observation(s) (first: %s); lookups and listings agree; see C08 (tables part)" % (len(struct), struct[0]["text"][:300]))
     return R.finish()
 
 def replay(R, path):
